@@ -25,4 +25,4 @@ def BOUNDED():
 
 
 ASSUME = ['ciphers, RSA, ECDH, key wrap, KDF and compression are externals (uninterpreted; inverse-pair behaviour exercised by the bounded component)',
-          'ECDH session-key encryption (RFC 6637) is covered only by the bounded component']
+          'ECDH (RFC 6637 section 8): ECDHCipherText.encrypt / decrypt and ECKDF.derive_key are under contract as wirings of the externals (fresh ephemeral key, exchange, KDF parameter block, key wrap over the 8-octet padded m); that wrap/unwrap, exchange and KDF agree on both sides is exercised by the bounded component']
